@@ -4,6 +4,7 @@ import Qryn.Proofs.ReadPipeH
 import Qryn.Proofs.ReadPipeHExec
 import Qryn.Proofs.ReadCensus
 import Qryn.Proofs.ReadCensusTyped
+import Qryn.Proofs.ReadStageDiscipline
 /-! # C12 — no query can crash, hang or leak work on the read side   (PARTIAL: bookkeeping proved, runtime explored)
 
 Property theorems only. Models: `Qryn.ReadSide` (Params.lean: controllers' parameter handling, `FixPeriodPlanner`,
@@ -60,6 +61,7 @@ def detachedModelled : List String :=
    "service/queryRangeService.go:QueryRangeService.QueryInstant#1",
    "service/queryRangeService.go:QueryRangeService.QueryInstant#2",
    "service/queryRangeService.go:QueryRangeService.Tail#2",
+   "service/queryRangeService.go:QueryRangeService.Tail#3",
    "service/tempoService.go:TempoService.Tags#1",
    "service/tempoService.go:TempoService.TagsV2#1",
    "service/tempoService.go:TempoService.ValuesV2#1",
@@ -92,6 +94,27 @@ def unreachableEarlyReturn : List String :=
     (`drainEntries`, an empty `for range`) — the exporters, `WrapProcess`, `FixPeriodPlanner`, the forwarders. -/
 theorem consumers_drain :
     ∀ c ∈ ReadSide.consumers, c.2.1 = true → c.2.2 = true ∨ c.1 ∈ unreachableEarlyReturn := by decide
+
+open Qryn.ReadSide.Pipe in
+/-- **stage_drains_regenerated** (typed; replaces the ASSUMPTION `drains` of the pipeline theorems). `Gen.StageDrains`
+    lists every loop of the read side outside the controllers that receives from a channel — the in-process stages
+    (`GenericPlanner.WrapProcess`), `FixPeriodPlanner`, the exporters of `queryRangeService.go`, the tail, the Tempo
+    forwarders, the TraceQL collector — with every exit of the loop other than "channel closed", what happens to the
+    channel on the worst path from that exit to the end of the function (a drainer is started / only a context is
+    cancelled / nothing), whether the function recovers (a recovered panic leaves the loop at any point) and whether it
+    defers a drainer of that channel before the loop. The theorem: every such loop whose receiver type is instantiated
+    anywhere in the module keeps its input consumed whichever way it leaves (`StageCode.keepsConsumed`: a deferred
+    drainer, or no recover and every explicit exit starts a drainer) — except the one loop whose early exit is
+    unreachable (`unreachableExit`). The only loop of a type that is never constructed is the unreferenced
+    `logql_transpiler_v2.MatrixStepPlanner` (it recovers and has no drainer). A stage that returns on an error without
+    draining, or a recover added without a deferred drain, breaks this theorem. -/
+theorem stage_drains_regenerated :
+    (∀ c ∈ liveStages, c.keepsConsumed = true) ∧
+    (Gen.StageDrains.stages.filter (fun g => !g.2.2.2.2.1)).map (·.1) =
+      ["logql/logql_transpiler_v2/planner_matrix_step.go:(*reader/logql/logql_transpiler_v2.MatrixStepPlanner).Process$1#1"] ∧
+    (∀ n ∈ unreachableExit, n ∈ Gen.StageDrains.stages.map (·.1)) ∧
+    liveStages.length + 2 = Gen.StageDrains.stages.length :=
+  ⟨live_stages_keep_consumed, by decide +kernel, by decide +kernel, by decide +kernel⟩
 
 /-! ### T: the fault-site census of every goroutine started under reader/ -/
 open Qryn.ReadSide.Census in
@@ -390,22 +413,26 @@ theorem matrix_step_loop (step lim i : Int) :
 /-! ## the channel pipeline terminates -/
 open Qryn.ReadSide.Pipe
 
-/-- **pipeline_terminates.** For every number of stages, every result set (batches with arbitrary futures: how many
-    batches each one produces at each later stage, where an error strikes), every closing output of the stages, and
-    every interleaving of the goroutines together with the environment moves (context cancelled because the limit was
-    reached or the client went away, database failing midway): as long as every stage keeps its input consumed,
+/-- **pipeline_terminates.** For every pipeline ASSEMBLED FROM THE REGENERATED STAGES (`cs`: any number of them, in any
+    order, each one of `liveStages` — the model reads each stage's `drains` flag off what `Gen.StageDrains` says about
+    its exits, `drainsOf`), every result set (batches with arbitrary futures: how many batches each one produces at each
+    later stage, where an error strikes), every closing output of the stages, and every interleaving of the goroutines
+    together with the environment moves (context cancelled because the limit was reached or the client went away,
+    database failing midway):
     (a) every move strictly decreases `measure`, so every schedule is finite, at most `measure` moves long;
     (b) a state that is not final has a move — no send blocks forever, no goroutine waits for ever;
     (c) hence a schedule can only stop in the final state (every goroutine returned, every channel closed),
-        and the final state is reachable from every reachable state. -/
-theorem pipeline_terminates (n : Nat) (hn : 0 < n) (rows : List Item) (flush : Nat → List Item) (S : Sys)
-    (hr : Run (start n rows flush (fun _ => true)) S) :
+        and the final state is reachable from every reachable state.
+    There is no hypothesis about the stages' behaviour after an error any more: it is `stage_drains_regenerated`. -/
+theorem pipeline_terminates (cs : List StageCode) (hn : 0 < cs.length) (hreg : ∀ c ∈ cs, c ∈ liveStages)
+    (rows : List Item) (flush : Nat → List Item) (S : Sys)
+    (hr : Run (startC cs rows flush) S) :
     (∀ S', Step S S' → S'.measure < S.measure) ∧
-    S.measure ≤ (start n rows flush (fun _ => true)).measure ∧
+    S.measure ≤ (startC cs rows flush).measure ∧
     (¬ Final S → ∃ S', Step S S') ∧
     ((∀ S', ¬ Step S S') → Final S) ∧
     (∃ S', Run S S' ∧ Final S') := by
-  have hI : Inv S := run_inv (start_inv n hn rows flush) hr
+  have hI : Inv S := run_inv (startC_inv cs hn hreg rows flush) hr
   refine ⟨fun S' h => step_measure h, run_measure hr, fun hF => progress hI hF, ?_, reaches_final S hI⟩
   intro hstuck
   by_cases hF : Final S
@@ -449,23 +476,28 @@ theorem pipeline_without_drain_deadlocks :
 
 /-- **no_blocked_sender.** The handler is part of the transition system (`PipelineH.lean`): it may leave its copy loop
     at ANY point (`stop`: client gone, write error, limit reached), the request context may be cancelled at any point
-    (`envCancel`). For every pipeline length, every result set (batches with arbitrary futures), every closing output
-    and every interleaving: under the code's convention — the handler's code keeps the channel drained
-    (`onStop = drain`: qryn, by `handler_loops_read_to_close` — a loop that is never left early, or a deferred drainer), OR it cancels a context on which every producer's send
-    selects (`onStop = cancel ∧ sel`) — and with every stage keeping its input consumed (`consumers_drain`),
+    (`envCancel`). For every pipeline assembled from the regenerated stages (`cs`, each one of `liveStages`; the model
+    interprets each stage's regenerated exits, `drainsOf`), every result set (batches with arbitrary futures), every
+    closing output and every interleaving: under the handler's convention — its code keeps the channel drained
+    (`onStop = drain`: qryn, by `handler_loops_read_to_close` / `handler_loops_no_fault_in_reach` — a loop that is never
+    left early, or a deferred drainer), OR it cancels a context on which every producer's send selects
+    (`onStop = cancel ∧ sel`) —
     (a) every move strictly decreases `measure`: every schedule is finite;
     (b) a state that is not final has a move: no send blocks for ever, wherever the handler stopped;
     (c) a schedule can only end in the final state — scanner, every stage and the exporter returned, every channel
-        closed, the handler out of its loop — and that state is reachable from every reachable state. -/
-theorem no_blocked_sender (n : Nat) (hn : 0 < n) (rows : List Item) (flush : Nat → List Item)
+        closed, the handler out of its loop — and that state is reachable from every reachable state.
+    What used to be the free assumption "every stage keeps its input consumed" is now the regenerated fact
+    `stage_drains_regenerated`; `undrained_stage_never_terminates` is the counterexample for a stage that does not. -/
+theorem no_blocked_sender (cs : List StageCode) (hn : 0 < cs.length) (hreg : ∀ c ∈ cs, c ∈ liveStages)
+    (rows : List Item) (flush : Nat → List Item)
     (c : OnStop) (sel : Bool) (hconv : c = .drain ∨ (c = .cancel ∧ sel = true)) (S : HSys)
-    (hr : HRun (hstart n rows flush (fun _ => true) c sel) S) :
+    (hr : HRun (hstartC cs rows flush c sel) S) :
     (∀ S', HStep S S' → S'.measure < S.measure) ∧
-    S.measure ≤ (hstart n rows flush (fun _ => true) c sel).measure ∧
+    S.measure ≤ (hstartC cs rows flush c sel).measure ∧
     (¬ HFinal S → ∃ S', HStep S S') ∧
     ((∀ S', ¬ HStep S S') → HFinal S) ∧
     (∃ S', HRun S S' ∧ HFinal S') := by
-  have hI : HInv S := hrun_inv (hstart_inv n hn rows flush c sel) hr
+  have hI : HInv S := hrun_inv (hstartC_inv cs hn hreg rows flush c sel) hr
   have hc : Convention S := by
     have := hrun_code hr
     unfold Convention
@@ -477,6 +509,49 @@ theorem no_blocked_sender (n : Nat) (hn : 0 < n) (rows : List Item) (flush : Nat
   · exact hF
   · obtain ⟨S', hs⟩ := hprogress hI hc hF
     exact absurd hs (hstuck S')
+
+/-- a stage as the self-test writes it: `if err != nil { return }` inside `for entries := range in`, no drainer -/
+def returnsWithoutDraining : StageCode := ⟨"stage that returns on an error without draining", false, false, [.none]⟩
+
+/-- … and a stage that gained a recover but no deferred drainer (every explicit exit drains; the recovered panic does not) -/
+def recoversWithoutDrain : StageCode := ⟨"stage with a recover and no deferred drainer", true, false, [.drain]⟩
+
+/-- **undrained_stage_never_terminates** (counterexample, general): once a first stage that does not keep its input
+    consumed (`drains = false`, what `drainsOf` computes for `returnsWithoutDraining`) has left its loop while the scanner
+    still has a batch to send, and no producer selects on the context, then in EVERY continuation — whatever the handler
+    does: it may drain, cancel, leave — the scanner still holds that batch: the final state is never reached. -/
+theorem undrained_stage_never_terminates (S S' : HSys) (hU : Undrained S) (hr : HRun S S') :
+    S'.sys.src ≠ [] ∧ ¬ HFinal S' :=
+  ⟨(hrun_undrained hU hr).pending, undrained_not_final (hrun_undrained hU hr)⟩
+
+/-- the full-strength statement without the regenerated discipline — false -/
+def any_stage_terminates_full : Prop :=
+  ∀ (cs : List StageCode) (rows : List Item) (flush : Nat → List Item) (S : HSys), 0 < cs.length →
+    HRun (hstartC cs rows flush .drain false) S → ∃ S', HRun S S' ∧ HFinal S'
+
+/-- **any_stage_terminates_counterexample**: the pipeline [a stage that returns on an error without draining] under a
+    handler that DOES drain; the first batch is an error entry, a second batch is on its way. After the stage has
+    received the first batch the scanner is blocked in its send for ever (kernel-checked: `drainsOf` of that stage code
+    is `false`, the state is `Undrained`). The same for a stage that recovers without a deferred drainer. -/
+theorem any_stage_terminates_counterexample : ¬ any_stage_terminates_full := by
+  intro hfull
+  let e : Item := .mk true []
+  let b : Item := .mk false []
+  let S0 := hstartC [returnsWithoutDraining] [e, b] (fun _ => []) .drain false
+  let T : Sys := { S0.sys with src := [b], stg := upd S0.sys.stg 0 ((S0.sys.stg 0).recv e) }
+  have st1 : HStep S0 { S0 with sys := T } :=
+    HStep.work S0 T (Step.srcSend S0.sys e [b] rfl (by decide) ⟨rfl, rfl, Or.inl rfl⟩)
+      (fun _ => Or.inr rfl)
+  have hU : Undrained { S0 with sys := T } := by
+    refine ⟨by decide, ?_, ?_, ?_, rfl⟩
+    · simp [T]
+    · simp [T, S0, hstartC, hstart, start, upd, Stg.recv, e]
+    · simp [T, S0, hstartC, hstart, start, upd, Stg.recv, e, drainsOf, returnsWithoutDraining, StageCode.keepsConsumed]
+  obtain ⟨S', hr', hF⟩ := hfull [returnsWithoutDraining] [e, b] (fun _ => []) _ (by decide) (HRun.step st1 (HRun.refl _))
+  exact (undrained_stage_never_terminates _ S' hU hr').2 hF
+
+example : drainsOf [returnsWithoutDraining] 0 = false ∧ drainsOf [recoversWithoutDrain] 0 = false := by decide
+example : returnsWithoutDraining ∉ liveStages ∧ recoversWithoutDrain ∉ liveStages := by decide +kernel
 
 /-- **abandoned_exporter_never_returns.** The counter-pattern in general: once the handler has left its loop, its
     code does not drain and the producers do not watch the context (`onStop ≠ drain`, `sel = false`: seeded change
